@@ -242,31 +242,35 @@ class SafeConstructor(BaseConstructor):
 
     def construct_yaml_int(self, node):
         value = self.construct_scalar(node)
-        value = value.replace('_', '')
-        sign = +1
-        if value[0] == '-':
-            sign = -1
-        if value[0] in '+-':
-            value = value[1:]
-        if value == '0':
-            return 0
-        elif value.startswith('0b'):
-            return sign*int(value[2:], 2)
-        elif value.startswith('0x'):
-            return sign*int(value[2:], 16)
-        elif value[0] == '0':
-            return sign*int(value, 8)
-        elif ':' in value:
-            digits = [int(part) for part in value.split(':')]
-            digits.reverse()
-            base = 1
-            value = 0
-            for digit in digits:
-                value += digit*base
-                base *= 60
-            return sign*value
-        else:
-            return sign*int(value)
+        try:
+            value = value.replace('_', '')
+            sign = +1
+            if value[0] == '-':
+                sign = -1
+            if value[0] in '+-':
+                value = value[1:]
+            if value == '0':
+                return 0
+            elif value.startswith('0b'):
+                return sign*int(value[2:], 2)
+            elif value.startswith('0x'):
+                return sign*int(value[2:], 16)
+            elif value[0] == '0':
+                return sign*int(value, 8)
+            elif ':' in value:
+                digits = [int(part) for part in value.split(':')]
+                digits.reverse()
+                base = 1
+                value = 0
+                for digit in digits:
+                    value += digit*base
+                    base *= 60
+                return sign*value
+            else:
+                return sign*int(value)
+        except (ValueError, IndexError):
+            raise ConstructorError(None, None,
+                    "expected an integer, but found %r" % node.value, node.start_mark)
 
     inf_value = 1e300
     while inf_value != inf_value*inf_value:
